@@ -42,7 +42,11 @@ def exclusive(name: str, timeout: float = 60.0) -> Iterator[bool]:
     exist once per machine, e.g. a fixed port on the only IPv6 loopback address: shards of one check
     and concurrently running checks would otherwise meet on each other's listening sockets.
     Yields False when the lock could not be had in time (caller: inconclusive, never a verdict)."""
-    path = os.path.join(workdir('locks'), name.replace('/', '_') + '.lock')
+    # machine-wide (not per checkout): two checkouts of /verif running at once must still exclude each other
+    import tempfile
+    lockdir = os.path.join(tempfile.gettempdir(), 'verif-locks')
+    os.makedirs(lockdir, exist_ok=True)
+    path = os.path.join(lockdir, name.replace('/', '_') + '.lock')
     fd = os.open(path, os.O_CREAT | os.O_RDWR, 0o600)
     got = False
     try:
